@@ -96,6 +96,7 @@ type Sched struct {
 	lastYieldWall int64
 	heldSites     [4]uintptr // where the hold strategy parked its victims
 	heldN         int
+	diverged      int // replay of a decision list: picks whose recorded task was not runnable
 	spawned       int
 	planned       int // tasks registered before Start (the rest were spawned by go statements)
 	ended         bool
@@ -272,6 +273,9 @@ func (s *Sched) MarkEnded() { s.ended = true }
 //go:norace
 func (s *Sched) Spawned() int { return s.spawned }
 
+//go:norace
+func (s *Sched) Diverged() int { return s.diverged }
+
 // TaskEnd is called by a task's goroutine when its script is finished.
 //
 //go:norace
@@ -349,8 +353,8 @@ func (s *Sched) pick(self *task) *task {
 		}
 		return nil
 	}
-	if n == 1 {
-		return cand[0]
+	if n == 1 && len(s.tasks) == 1 {
+		return cand[0] // inline run without spawned tasks: nothing to decide, nothing to record
 	}
 	var chosen *task
 	if s.decisions < len(s.cfg.Decisions) {
@@ -360,6 +364,12 @@ func (s *Sched) pick(self *task) *task {
 				chosen = cand[i]
 			}
 		}
+		if chosen == nil {
+			s.diverged++
+		}
+	}
+	if chosen == nil && n == 1 {
+		chosen = cand[0]
 	}
 	if chosen == nil {
 		switch s.cfg.Strategy {
